@@ -41,6 +41,8 @@ func replay(e *env) {
 			msg = e.replayRebuilt(&c)
 		case "payers":
 			msg = e.replayPayers(&c)
+		case "encodings":
+			msg = e.replayEncodings(&c)
 		default:
 			fmt.Println("unknown sub-check in replay:", c.Sub)
 			os.Exit(3)
